@@ -250,7 +250,8 @@ pub fn generate(seed: u64, i: u64, tier: u32, methods: &[String]) -> Scenario {
         b.input = Some("p.json".into());
         b.output = if sink_file { Some("o2.json".into()) } else { None };
         if r.chance(15) {
-            b.save_params = Some("p2.json".into());
+            // -i together with -p: to another path, or to the very file being read
+            b.save_params = Some(if r.chance(60) { "p2.json".into() } else { "p.json".into() });
         }
         steps.push(b);
     } else if t < 48 {
